@@ -34,6 +34,9 @@ def limits(cfg):
     if r == "BlocPlurality":
         k = cfg.get("k")
         return F(1), F(k if k is not None else m)
+    if r == "GeneralRating":
+        k = cfg.get("k")
+        return canon.pf(cfg.get("L", "1")), None if k is None else canon.pf(k)
     raise KeyError(r)
 
 
@@ -166,7 +169,61 @@ def check_case(ctx, case, max_runs):
             ctx.count("tiebreak_runs")
 
 
+def check_sequence(ctx, case):
+    """state leaks: the SAME profile object is given to two score-ballot rules in turn; each construction is judged by the
+    acceptance predicate of its own rule, and the profile object must come out unchanged"""
+    spec = case["profile"]
+    cands, ballots = canon.plain(spec)
+    prof = canon.build_profile(spec)
+    keys0 = sorted(prof.__dict__.keys())
+    snap0 = canon.jhash(canon.profile_c(prof))
+    ctx.case(case, nontrivial=True)
+    for i, cfg in enumerate(case["cfgs"]):
+        ok, why = acceptable(cfg, ballots)
+        out = rules.run(cfg, prof)[0]
+        ctx.count("sequence_constructions")
+        if sorted(prof.__dict__.keys()) != keys0 or canon.jhash(canon.profile_c(prof)) != snap0:
+            ctx.fail(f"{cfg['rule']}: running the election changed the profile object it was given", case,
+                     {"step": i + 1, "new_attributes": sorted(set(prof.__dict__) - set(keys0))})
+            return
+        if not ok and out.ok:
+            ctx.fail(f"{cfg['rule']}: profile violating a limit ({why}) was accepted when the same profile object had been used by "
+                     f"another election before", case, {"step": i + 1, "earlier": [c["rule"] for c in case["cfgs"][:i]]})
+            return
+        if not ok and out.etype != "TypeError":
+            ctx.fail(f"{cfg['rule']}: invalid profile ({why}) rejected with {out.etype}, not TypeError (profile object reused)", case,
+                     {"step": i + 1})
+            return
+        if ok and not out.ok and out.etype != "ValueError":
+            ctx.fail(f"{cfg['rule']}: valid profile rejected with {out.etype} after the profile object was used by another election",
+                     case, {"step": i + 1, "msg": str(out.exc)[:200]})
+            return
+
+
 def run(ctx):
+    rnd = ctx.rnd
+    for i in range(ctx.n(1500, 30000)):
+        if ctx.expired():
+            break
+        n = rnd.randint(2, 5)
+        m = rnd.randint(1, n)
+        base = gen.score_profile(rnd, n=n, L=rnd.choice([1, 2, 3]))
+        cfgs = []
+        for _ in range(rnd.randint(2, 3)):
+            r = rnd.choice(["Approval", "Rating", "BlocPlurality", "Limited", "Cumulative", "GeneralRating"])
+            cfg = {"rule": r, "m": m, "tiebreak": "random"}
+            if r == "Rating":
+                cfg["L"] = canon.fs(F(rnd.choice([1, 2, 3])))
+            if r == "Limited":
+                cfg["k"] = canon.fs(F(rnd.randint(1, m)))
+            if r == "BlocPlurality" and rnd.random() < 0.5:
+                cfg["k"] = rnd.randint(1, n)
+            if r == "GeneralRating":
+                L = rnd.choice([1, 2, 3])
+                cfg["L"] = canon.fs(F(L))
+                cfg["k"] = rnd.choice([None, canon.fs(F(rnd.randint(L, L + 3)))])
+            cfgs.append(cfg)
+        ctx.guard("sequence", check_sequence, ctx, {"kind": "sequence", "profile": base, "cfgs": cfgs})
     for i in range(ctx.n(9000, 200000)):
         if ctx.expired():
             break
@@ -181,4 +238,6 @@ def run(ctx):
 
 
 def replay(ctx, case):
+    if case.get("kind") == "sequence":
+        return check_sequence(ctx, case)
     check_case(ctx, case, 1)
